@@ -8,7 +8,7 @@ ID="$1"; shift
 PATCH="seeded/$ID/patch.diff"
 [ -f "$PATCH" ] || { echo "no $PATCH"; exit 2; }
 if [ -n "$(git -C /repo status --porcelain)" ]; then echo "/repo not clean"; exit 2; fi
-git -C /repo apply "$(readlink -f "$PATCH")"
+if ! git -C /repo apply "$(readlink -f "$PATCH")" 2>/dev/null; then echo "PATCH-DOES-NOT-APPLY $ID"; exit 3; fi
 trap 'git -C /repo checkout -- . ; git -C /repo status --porcelain' EXIT
 PROPS="$*"
 [ -n "$PROPS" ] || PROPS="C01 C02 C03 C04 C05 C06 C07 C08 C09 C10 C11 C12 C13 C14 C15 C16 C17 C18 C19 C20"
